@@ -25,6 +25,7 @@ import (
 	"github.com/btcsuite/btcwallet/wallet/txauthor"
 	"github.com/btcsuite/btcwallet/walletdb"
 	_ "github.com/btcsuite/btcwallet/walletdb/bdb"
+	"github.com/btcsuite/btcwallet/wtxmgr"
 
 	"verifsim/core"
 	"verifsim/faultdb"
@@ -57,6 +58,7 @@ type issued struct {
 }
 
 type world struct {
+	announced []simchain.Announce // confirmed-transaction announcements of all client sessions, in order
 	c02prev map[chainhash.Hash]int // C02 wallet level: credits per recorded transaction at the previous synchronised point
 	beforeAttach func() // runs once inside open(), before SynchronizeRPC
 	env    *core.Env
@@ -248,6 +250,7 @@ func (x *world) open() error {
 	if x.client.Dialect != "" {
 		x.env.Count("probe.backend-dialect." + x.client.Dialect)
 	}
+	x.client.AnnounceLog = &x.announced
 	x.client.AsyncRescan = x.p.C("async_rescan", 0) == 1
 	x.client.BtcdStyleRescan = x.p.C("btcd_rescan", 0) == 1
 	for _, k := range core.SortedKeys(x.pendingFail) {
@@ -564,3 +567,55 @@ func sortedStrings(m map[string]bool) []string {
 }
 
 func scriptEq(a, b []byte) bool { return bytes.Equal(a, b) }
+
+
+// spenderAnnouncedBeforeParent looks for the one inconsistency a transaction
+// store shows after it was told of a spender's confirmation while it still
+// held the parent as unconfirmed, and of the parent's confirmation afterwards:
+// a credit of a confirmed transaction that the store reports unspent although a
+// recorded confirmed transaction spends it. It reports whether one exists and
+// whether the client announced the two confirmations in that order — which a
+// bitcoind-style client does when a block arrives on its block-notification
+// path while its rescan has not reached the parent's block yet
+// (chain/bitcoind_client.go: ntfnHandler filters a new block at once, Rescan
+// runs in a goroutine of its own). Such a notification sequence is not
+// chain-consistent — a child confirmed above an unconfirmed parent — and is
+// outside what C01 and C02 quantify over.
+func (x *world) spenderAnnouncedBeforeParent(ds []wtxmgr.TxDetails) (found bool, byClientOrder bool, what string) {
+	byHash := map[chainhash.Hash]*wtxmgr.TxDetails{}
+	for i := range ds {
+		byHash[ds[i].Hash] = &ds[i]
+	}
+	first := func(tx, block chainhash.Hash) int {
+		for i, a := range x.announced {
+			if a.Tx == tx && a.Block == block {
+				return i
+			}
+		}
+		return -1
+	}
+	for i := range ds {
+		c := &ds[i]
+		if c.Block.Height < 0 || isCoinbaseTx(&c.MsgTx) {
+			continue
+		}
+		for _, in := range c.MsgTx.TxIn {
+			p := byHash[in.PreviousOutPoint.Hash]
+			if p == nil || p.Block.Height < 0 {
+				continue
+			}
+			for _, cr := range p.Credits {
+				if cr.Index != in.PreviousOutPoint.Index || cr.Spent {
+					continue
+				}
+				found = true
+				what = fmt.Sprintf("credit %s:%d (confirmed at %d) is reported unspent although %s, confirmed at %d, spends it", short(p.Hash), cr.Index, p.Block.Height, short(c.Hash), c.Block.Height)
+				sc, sp := first(c.Hash, c.Block.Hash), first(p.Hash, p.Block.Hash)
+				if sc >= 0 && sp >= 0 && sc < sp {
+					return true, true, what
+				}
+			}
+		}
+	}
+	return found, false, what
+}
